@@ -324,10 +324,10 @@ func (g *G) observe() (E, string) {
 	s.both("%s := 0\n", acc)
 	vs := g.visible(func(v *Var) bool { return v.Ty.K == KPtr })
 	vs = append(vs, g.visible(func(v *Var) bool { return v.Ty.K != KPtr })...)
-	n := 0
+	n, nint := 0, 0
 	for _, v := range vs {
-		if n >= 4 {
-			break
+		if n >= 4 && v.Ty.K != KInt {
+			continue
 		}
 		switch v.Ty.K {
 		case KInts:
@@ -351,6 +351,16 @@ func (g *G) observe() (E, string) {
 			}
 		case KBool:
 			s.both("if %s == false {\n%s = %s ^ 128\n}\n", v.Name, acc, acc)
+		case KInt:
+			// every int that is visible once the inner scopes have ended (shadowed outer variables included)
+			if nint >= 6 {
+				continue
+			}
+			nint++
+			s.both("%s = %s ^ %s\n", acc, acc, v.Name)
+			v.Used = true
+			g.f("observe:int")
+			continue
 		default:
 			continue
 		}
